@@ -11,10 +11,11 @@ import VerifModel.Model.DetMetrics
   is not modelled.
 
   Bin conventions found in the code:
-    memHO   e_i ≤ x < e_{i+1}      Reliability, InvReliability, Discrimination, IgnContrib, Scatter
-                                   (conditional quantiles), BsRel/BsRes, util.bin
-    memOC   e_{i-1} < x ≤ e_i      SpreadSkill, Change, impact
-    memHist np.histogram: half-open bins, the last one closed        PitHist
+    memHist e_i ≤ x < e_{i+1}, the last bin also contains its upper edge (np.histogram's bins)
+                                   PitHist, Reliability, InvReliability, Discrimination, IgnContrib,
+                                   Scatter (conditional quantiles), util.bin
+    memHO   e_i ≤ x < e_{i+1}      BsRel/BsRes (last edge 1.001, above every probability)
+    memOCF  e_{i-1} < x ≤ e_i, the first bin also contains its lower edge     SpreadSkill, Change
     Interval.within of the -b bin type (default `within=`)           Hist, Freq, Cond
 -/
 namespace VerifModel.Diagram
@@ -39,7 +40,6 @@ def perInput {α : Type} (draw : Nat → α → List Series) (ins : List α) : L
 /-! ### bins -/
 
 def memHO (lo hi x : XR) : Bool := XR.ge x lo && XR.lt x hi
-def memOC (lo hi x : XR) : Bool := XR.gt x lo && XR.le x hi
 
 /-- the cases of each bin, for a membership test on consecutive edge pairs -/
 def binsBy {α : Type} (mem : XR → XR → XR → Bool) (edges : List XR) (key : α → XR) (cs : List α) :
@@ -59,6 +59,22 @@ def histCounts (edges : List XR) (xs : Vec) : List Nat :=
   (histPairs edges).map fun e => (xs.filter (memHist e)).length
 
 def natSum (l : List Nat) : Nat := l.foldr (· + ·) 0
+
+/-- the cases of each bin for half-open bins whose last one is closed on the right -/
+def binsLast {α : Type} (edges : List XR) (key : α → XR) (cs : List α) : List (List α) :=
+  (histPairs edges).map fun e => cs.filter fun c => memHist e (key c)
+
+/-- consecutive pairs, the first one flagged (closed on the left) -/
+def firstPairs : List XR → List (XR × XR × Bool)
+  | a :: b :: rest => (a, b, true) :: (histPairs (b :: rest)).map fun e => (e.1, e.2.1, false)
+  | _ => []
+
+def memOCF (e : XR × XR × Bool) (x : XR) : Bool :=
+  (if e.2.2 then XR.ge x e.1 else XR.gt x e.1) && XR.le x e.2.1
+
+/-- the cases of each bin for bins (lo, hi] whose first one is closed on the left -/
+def binsFirst {α : Type} (edges : List XR) (key : α → XR) (cs : List α) : List (List α) :=
+  (firstPairs edges).map fun e => cs.filter fun c => memOCF e (key c)
 
 /-- default probability bin edges of the Reliability diagram, and 0, 0.1, …, 1 (Discrimination, ROC levels, PitHist) -/
 def reliabilityDefaultEdges : List XR :=
@@ -123,7 +139,7 @@ def marginalPoint (b : BinType) (t : XR) (obs p : Vec) : XR × XR :=
 /-- Reliability / InvReliability: per bin (mean forecast value or 0, observed frequency if the
 bin holds at least `minCount` cases, count).  Cases are (observed 0/1, forecast value). -/
 def reliabilitySeries (minCount : Nat) (edges : List XR) (cs : List (XR × XR)) : List (XR × XR × Nat) :=
-  (binsBy memHO edges (·.2) cs).map fun b =>
+  (binsLast edges (·.2) cs).map fun b =>
     (meanOr0 (b.map (·.2)),
      if 0 < b.length ∧ minCount ≤ b.length then Vec.mean (b.map (·.1)) else .nan,
      b.length)
@@ -137,7 +153,7 @@ def invrelCases (obs q : Vec) : List (XR × XR) :=
 /-- Discrimination: percentage of the cases of one class (observed 0 or 1) per probability bin -/
 def discriminationSeries (edges : List XR) (cs : List (XR × XR)) (cls : XR) : Vec :=
   let sel := (cs.filter fun c => XR.eqb c.1 cls).map (·.2)
-  (pairs edges).map fun e => Vec.mean (sel.map fun p => boolToXR (memHO e.1 e.2 p)) * .fin 100
+  (histPairs edges).map fun e => Vec.mean (sel.map fun p => boolToXR (memHist e p)) * .fin 100
 
 /-- bar layout of Discrimination: left edges of the (not observed, observed) bars and the bar width -/
 def discriminationLayout (edges : List XR) (f F : Nat) : Vec × Vec × XR :=
@@ -173,26 +189,25 @@ def taylorPoint (T : Tr) (norm : Bool) (obs fcst : Vec) : XR × XR :=
   let s := if norm then sf / so else sf
   (s * r, s * T.sqrt (.fin 1 - r * r))
 
-/-- Error decomposition: (√(RMSE² − ME²), ME) with ME = mean(obs − fcst) as the code has it -/
+/-- Error decomposition: (√(RMSE² − ME²), ME) with ME = mean(fcst − obs), verif's bias -/
 def errorSeries (T : Tr) (obs fcst : Vec) : XR × XR :=
-  let e := Vec.sub obs fcst
+  let e := Vec.sub fcst obs
   let serr := Vec.mean e
   let rmse := T.sqrt (Vec.mean (Vec.mul e e))
   (T.sqrt (rmse * rmse - serr * serr), serr)
 
-/-- PIT histogram: left edges, heights (percent of the binned values) and width of the bars as drawn
-(`mpl.bar(edges[:-1], y, width)` centres the bars on the left bin edges) -/
+/-- PIT histogram: left edges, heights (percent of the binned values) and widths of the bars as drawn
+(`mpl.bar(edges[:-1], y, width=np.diff(edges), align='edge')`) -/
 def pithistBars (edges : List XR) (pit : Vec) : Vec × Vec × Vec :=
   let c := histCounts edges pit
-  let nb := edges.length - 1
-  let w : XR := .fin 1 / XR.ofNat nb
-  ((edges.take nb).map fun e => e - w / .fin 2,
+  ((pairs edges).map (·.1),
    c.map fun n => XR.ofNat n / XR.ofNat (natSum c) * .fin 100,
-   c.map fun _ => w)
+   (pairs edges).map fun e => e.2 - e.1)
 
-/-- Spread-skill: per bin (t_{i-1}, t_i] the mean spread and the RMSE; the first point is NaN -/
+/-- Spread-skill: per bin (t_{i-1}, t_i] (the first one [t_0, t_1]) the mean spread and the RMSE; the first
+point is NaN -/
 def spreadskillSeries (T : Tr) (ths : List XR) (cs : List (XR × XR)) : Vec × Vec :=   -- (spread, squared error)
-  let bins := binsBy memOC ths (·.1) cs
+  let bins := binsFirst ths (·.1) cs
   (.nan :: bins.map fun b => meanOrNan (b.map (·.1)),
    .nan :: bins.map fun b => if b.isEmpty then .nan else T.sqrt (Vec.mean (b.map (·.2))))
 
@@ -226,7 +241,7 @@ def standardSeries (T : Tr) (m : String) (sl : List (Vec × Vec)) : Vec :=
 def scatterLevels : List Rat := [1/100, 1/10, 1/5, 3/10, 2/5, 1/2, 3/5, 7/10, 4/5, 9/10, 99/100]
 
 def scatterQuantiles (edges : List XR) (obs fcst : Vec) : List Vec :=
-  let bins := binsBy memHO edges (·.2) (obs.zip fcst)
+  let bins := binsLast edges (·.2) (obs.zip fcst)
   scatterLevels.map fun q => bins.map fun b =>
     if b.isEmpty then .nan else (Agg.percentile (b.map (·.1)) q).getD .nan
 
@@ -234,7 +249,7 @@ def mids (edges : List XR) : Vec := (pairs edges).map fun e => (e.2 + e.1) / .fi
 
 /-- util.bin(x, y, edges) with np.nanmean, and the number of members per bin -/
 def utilBin (edges : List XR) (x y : Vec) : Vec × Vec × List Nat :=
-  let bins := binsBy memHO edges (·.1) (x.zip y)
+  let bins := binsLast edges (·.1) (x.zip y)
   (bins.map fun b => if b.isEmpty then .nan else Vec.nanmean (b.map (·.1)),
    bins.map fun b => if b.isEmpty then .nan else Vec.nanmean (b.map (·.2)),
    bins.map List.length)
